@@ -63,6 +63,10 @@ pub struct BtcState {
     pub kill_at_request: Option<u64>,
     pub victim_pid: Option<u32>,
     pub killed: bool,
+    /// listener address -> (requests received there, Authorization header values seen)
+    pub hits: std::collections::BTreeMap<String, (u64, std::collections::BTreeSet<String>)>,
+    /// what `getblockchaininfo` reports as `chain`
+    pub chain_name: String,
     pub requests: u64,
     pub methods: std::collections::BTreeMap<String, u64>,
 }
@@ -88,7 +92,7 @@ fn http_reply(status: u16, body: &[u8]) -> Vec<u8> {
 }
 
 /// Reads one HTTP request; `Ok(None)` on a clean EOF / stop.
-fn read_request(s: &mut TcpStream, stop: &AtomicBool) -> Option<Vec<u8>> {
+fn read_request(s: &mut TcpStream, stop: &AtomicBool) -> Option<(String, Vec<u8>)> {
     let mut buf: Vec<u8> = Vec::new();
     let mut tmp = [0u8; 16384];
     let mut need: Option<usize> = None;
@@ -96,7 +100,9 @@ fn read_request(s: &mut TcpStream, stop: &AtomicBool) -> Option<Vec<u8>> {
         if let Some(n) = need {
             if buf.len() >= n {
                 let head_end = buf.windows(4).position(|w| w == b"\r\n\r\n").unwrap() + 4;
-                return Some(buf[head_end..n].to_vec());
+                let head = String::from_utf8_lossy(&buf[..head_end]).to_string();
+                let auth = head.lines().find_map(|l| if l.to_ascii_lowercase().starts_with("authorization:") { Some(l[14..].trim().to_string()) } else { None }).unwrap_or_default();
+                return Some((auth, buf[head_end..n].to_vec()));
             }
         } else if let Some(p) = buf.windows(4).position(|w| w == b"\r\n\r\n") {
             let head = String::from_utf8_lossy(&buf[..p]).to_ascii_lowercase();
@@ -131,12 +137,34 @@ impl FakeBitcoind {
             match listener.accept() {
                 Ok((sock, _)) => {
                     let srv = srv.clone();
-                    std::thread::spawn(move || srv.serve(sock));
+                    let label = format!("127.0.0.1:{port}");
+                    std::thread::spawn(move || srv.serve(sock, label));
                 }
                 Err(_) => std::thread::sleep(Duration::from_millis(2)),
             }
         });
         me
+    }
+
+    /// One more listening address (the configuration engine tells by the address which setting teosd followed).
+    pub fn add_listener(self: &Arc<Self>, addr: SocketAddr) -> std::io::Result<()> {
+        let listener = TcpListener::bind(addr)?;
+        listener.set_nonblocking(true)?;
+        let srv = self.clone();
+        std::thread::spawn(move || loop {
+            if srv.stop.load(Ordering::SeqCst) {
+                break;
+            }
+            match listener.accept() {
+                Ok((sock, _)) => {
+                    let srv = srv.clone();
+                    let label = addr.to_string();
+                    std::thread::spawn(move || srv.serve(sock, label));
+                }
+                Err(_) => std::thread::sleep(Duration::from_millis(2)),
+            }
+        });
+        Ok(())
     }
 
     pub fn shutdown(&self) {
@@ -228,8 +256,16 @@ impl FakeBitcoind {
 
     fn chain_info(&self, tip: BlockHash, height: u32) -> Value {
         let work = lock(&self.chain.state).header_data(&tip).map(|h| h.chainwork).unwrap_or(bitcoin::Work::from_be_bytes([0; 32]));
+        let chain_name = {
+            let n = lock(&self.st.0).chain_name.clone();
+            if n.is_empty() {
+                "regtest".to_string()
+            } else {
+                n
+            }
+        };
         json!({
-            "chain": "regtest", "blocks": height, "headers": height, "bestblockhash": tip.to_string(),
+            "chain": chain_name, "blocks": height, "headers": height, "bestblockhash": tip.to_string(),
             "difficulty": 1.0, "mediantime": 0, "verificationprogress": 1.0, "initialblockdownload": false,
             "chainwork": hex::encode(work.to_be_bytes()), "size_on_disk": 0, "pruned": false, "softforks": {}, "warnings": "",
         })
@@ -395,13 +431,19 @@ impl FakeBitcoind {
         }
     }
 
-    fn serve(self: Arc<Self>, mut sock: TcpStream) {
+    fn serve(self: Arc<Self>, mut sock: TcpStream, label: String) {
         sock.set_nonblocking(false).ok();
         sock.set_read_timeout(Some(Duration::from_millis(200))).ok();
         sock.set_nodelay(true).ok();
         loop {
             let body = match read_request(&mut sock, &self.stop) {
-                Some(b) => b,
+                Some((auth, b)) => {
+                    let mut st = lock(&self.st.0);
+                    let e = st.hits.entry(label.clone()).or_insert((0, Default::default()));
+                    e.0 += 1;
+                    e.1.insert(auth);
+                    b
+                }
                 None => return,
             };
             let req: Value = match serde_json::from_slice(&body) {
@@ -612,6 +654,10 @@ fn free_port() -> u16 {
     loop {
         let k = NEXT.fetch_add(1, Ordering::SeqCst);
         let port = 10_000 + ((pid.wrapping_mul(7919).wrapping_add(k.wrapping_mul(13))) % 22_000) as u16;
+        // never the documented default ports: the configuration engine (e3cfg) needs them free
+        if [18332u16, 18443, 9814, 8814, 8332, 38332, 50051].contains(&port) {
+            continue;
+        }
         if TcpListener::bind(("127.0.0.1", port)).is_ok() {
             return port;
         }
